@@ -1235,12 +1235,9 @@ func zipInnerSubscription[T any](subscriberCtx context.Context, obs Observable[T
 					onUpdate(ctx)
 				},
 				func(ctx context.Context, err error) {
-					mu.Lock()
-
-					*completed = true
-
-					mu.Unlock()
-
+					// The source is not marked as completed: a sibling emitting on another
+					// goroutine would take that for a completion and complete the output
+					// before the error is delivered.
 					destination.ErrorWithContext(ctx, err)
 					subscriptions.Unsubscribe()
 				},
